@@ -121,6 +121,9 @@ pub enum G {
     CfgJust(CfgFn, Vec<u32>),
     WithState(Box<G>),
     Memo(u64, Box<G>),
+    MemoNest(u64, Box<G>),
+    MemoZst(u64),
+    Lazy(Box<G>),
     Call(usize),
     Boxed(Box<G>),
 }
@@ -345,6 +348,9 @@ impl<'a> Rd<'a> {
             "cfgjust" => G::CfgJust(self.cfgfn()?, self.nat_list()?),
             "withstate" => G::WithState(self.bg()?),
             "memo" => G::Memo(self.nat()?, self.bg()?),
+            "memonest" => G::MemoNest(self.nat()?, self.bg()?),
+            "memozst" => G::MemoZst(self.nat()?),
+            "lazy" => G::Lazy(self.bg()?),
             "call" => G::Call(self.nat()? as usize),
             "boxed" => G::Boxed(self.bg()?),
             t => return Err(format!("bad grammar token {t}")),
